@@ -10,8 +10,8 @@ ASSUMPTIONS = ["identifier characters drawn from code points where the crate's U
 REPR = (list(gospec.OPERATORS) + sorted(gospec.KEYWORDS) +
         ['x', '_', 'a1', 'é', '世界', 'ж9', 'iff', 'forx', 'func_', 'breakfast', 'x٣',
          '0', '42', '0x1F', '0b101', '0o17', '017', '1_000', '1.5', '.5', '1e3', '0x1p-2', '2i', '1.5e3i',
-         "'a'", "'\\n'", "'世'", '"s"', '"a\\"b"', '`r`', '`r\nq`'])
-SEPS = [('nothing', ''), ('space', ' '), ('tab', '\t'), ('newline', '\n'), ('general', '/*c*/'), ('line', '//c\n')]
+         "'a'", "'\\n'", "'世'", '"s"', '"a\\"b"', '`r`', '`r\nq`', '`héllo`', '`世\n界😀`', '"日本語"', '"é\\n😀"', "'😀'"])
+SEPS = [('nothing', ''), ('space', ' '), ('tab', '\t'), ('newline', '\n'), ('general', '/*c*/'), ('line', '//c\n'), ('general-mb', '/*注😀*/'), ('line-mb', '//é\n')]
 
 
 def real_tokens(src, toks):
@@ -68,7 +68,7 @@ def run(chk):
     chk.extra['pairs_judged_by_oracle'] = judged
     # random streams
     n = 5000 if chk.tier == 'quick' else 100000
-    seps = [' ', ' ', '\t', '\n', '\r\n', '/*c*/', ' /* c\n */ ', '//c\n', '  ', '']
+    seps = [' ', ' ', '\t', '\n', '\r\n', '/*c*/', ' /* c\n */ ', '//c\n', '  ', '', '/*注*/', '//é😀\n']
     rc = []
     for _ in range(n):
         k = rng.randint(3, 12)
